@@ -1,4 +1,9 @@
 import Mdsort.Proofs.Safety
+import Mdsort.Proofs.L0Decode
+import Mdsort.Proofs.L0Message
+import Mdsort.Proofs.L0Mime
+import Mdsort.Proofs.L0Util
+import Mdsort.Proofs.L0Unfold
 
 /-!
 # C07 - hostile message content cannot corrupt memory, crash or hang mdsort
@@ -59,5 +64,180 @@ theorem C07_multipart_terminates :
     (∀ (m : Msg) (ps : List Msg), getAttachments m = some ps → ps.length ≤ m.body.length) ∧
     (∀ m : Msg, parseAttachments 0 m = none) :=
   ⟨Proofs.partsLoop_fuel_irrelevant, Proofs.attachments_bounded, fun _ => rfl⟩
+
+/-!
+## Index level (L0)
+
+`Model/L0/*.lean` transcribes the same C functions over `L0.Buf` (an array of bytes with a size): every C read is
+`Buf.get?`, every write into a sized object `Buf.set`, both failing with `Fault.oob` outside `[0, size)`; pointers
+into a libks vector carry the generation of the vector (`Fault.uaf` after a reallocation).  "No invalid access" is
+`= .ok _`.  The hypothesis is the one `buffer_str`/`strdup`/`strndup` establish: the last byte of the object is NUL
+(`b.bytes.back? = some 0`); the start index is any index inside the object (`i < b.size`); nothing is assumed about
+other NULs.  `b.view i` is what a C reader sees from `i` (the bytes up to the next NUL) - the list the L1 models
+take; for a buffer made from a byte string `s` it is `cstr s`, and `s` itself when `s` has no NUL.
+-/
+
+open L0 in
+/-- The view of the buffer the harness and `message_parse` build from a byte string. -/
+theorem C07_L0_view (s : Bytes) :
+    (Buf.ofBytes s).bytes.back? = some 0 ∧ (Buf.ofBytes s).view 0 = cstr s ∧
+    ((∀ x ∈ s, x ≠ 0) → (Buf.ofBytes s).view 0 = s) :=
+  ⟨Buf.ofBytes_terminated s, Buf.view_ofBytes s, Buf.view_ofBytes_of_no_nul⟩
+
+open L0 in
+/-- Decoders, index level: for every NUL-terminated buffer and every start index inside it, `base64_decode`
+(including its `dec[n] = '\0'` into the `strlen + 1` bytes allocated), `b64_pton` into any target of at least
+`targsize` bytes, `quoted_printable_decode` (with its reads at `i + 1`, `i + 2`) and `rfc2047_decode` (with
+`strchr`/`strstr`/`strndup` and both payload decoders) make no access outside their objects, and compute exactly
+what the list model computes on the view - so every C16 theorem about the list model holds of the index-level code. -/
+theorem C07_L0_decoders_refine (b : Buf) (hb : b.bytes.back? = some 0) (i : Nat) (hi : i < b.size) :
+    (∃ r, base64Decode b i = .ok r ∧
+        r.map (fun p => p.1.slice 0 p.2) = base64DecodeRaw (b.view i) ∧
+        r.map (fun p => p.1.view 0) = Model.base64Decode (b.view i) ∧
+        ∀ p, r = some p → p.1.get? p.2 = .ok 0) ∧
+    (∀ (target : Buf) (n : Nat), n ≤ target.size →
+      ∃ r, L0.b64pton b i target n = .ok r ∧ r.map (fun p => p.2.slice 0 p.1) = Model.b64pton (b.view i) n ∧
+        ∀ p, r = some p → p.1 ≤ n ∧ p.2.size = target.size) ∧
+    quotedPrintableDecode b i = .ok (qpDecodeRaw (b.view i)) ∧
+    rfc2047Decode b i = .ok (rfc2047DecodeRaw (b.view i)) :=
+  decoders_refine_ok b hb i hi
+
+open L0 in
+/-- The quoted-printable loop on any window `[base, base + len)` inside any object (no NUL needed): the guards
+`i + 1 == len` make the reads at `i + 1` and `i + 2` stay inside the window. -/
+theorem C07_L0_qp_window (dospace : Bool) (b : Buf) (base len : Nat) (h : base + len ≤ b.size) :
+    L0.qpLoop dospace b base len 0 [] = .ok (Model.qpLoop dospace (b.slice base (base + len)) []) :=
+  qp_window_ok dospace b base len h
+
+open L0 in
+/-- Header scanners, index level: `skipseparator`, `findheader` (both in-place NUL writes are inside the buffer and
+keep every NUL, in particular the terminator), `unfoldheader` (every write into the `strlen + 1` bytes of the copy,
+including the final `dec[i] = '\0'`), and `strcasecmp` as `cmpheaderkey` uses it. -/
+theorem C07_L0_header_scanners (b : Buf) (hb : b.bytes.back? = some 0) (i : Nat) (hi : i < b.size) :
+    (∃ j, skipSeparator b i = .ok j ∧ i ≤ j ∧ j < b.size ∧ b.view j = Model.skipSeparator (b.view i)) ∧
+    (∃ r, findHeader b i = .ok r ∧ r.Post b i) ∧
+    (∃ d, unfoldHeader b i = .ok d ∧ d.HasNul 0 ∧ d.size = (b.view i).length + 1) ∧
+    (∀ (a : Buf) (j : Nat), a.bytes.back? = some 0 → j < a.size →
+      L0.strcasecmp b i a j = .ok (Mdsort.strcasecmp (b.view i) (a.view j))) :=
+  header_scanners_ok b hb i hi
+
+open L0 in
+/-- `message_parse_headers`, index level: for every NUL-terminated `me_buf` no access is outside it and no write
+into the header vector is outside its capacity or through a stale pointer; afterwards the buffer is still
+terminated and `me_body` and every `key`/`val` of the table point at C strings inside it. -/
+theorem C07_L0_parse_headers (b : Buf) (hb : b.bytes.back? = some 0) :
+    ∃ b' hdrs body, parseHeaders b = .ok (b', hdrs, body) ∧ b'.bytes.back? = some 0 ∧ b'.size = b.size ∧
+      b'.HasNul body ∧ HdrsIn b' hdrs.items :=
+  parseHeaders_ok b hb
+
+open L0 in
+/-- `searchheader`, index level: for every table whose keys point at C strings of `buf` (as
+`C07_L0_parse_headers` establishes), every `nmemb` up to the table's length and every key string, the probes
+`headers + mi`, `headers + beg - 1`, `headers + end` are inside the table, the comparisons stay inside their
+strings, and the slice reported is inside the table and non-empty. -/
+theorem C07_L0_search (kb : Buf) (k : Nat) (buf : Buf) (hs : Array Hdr0) (nmemb : Nat)
+    (hk : kb.HasNul k) (hin : HdrsIn buf hs) (hn : nmemb ≤ hs.size) :
+    ∃ r, L0.searchHeader kb k buf hs nmemb = .ok r ∧ ∀ beg n, r = some (beg, n) → 0 < n ∧ beg + n ≤ nmemb :=
+  searchHeader_ok hk hin hn
+
+open L0 in
+/-- MIME scanners, index level: `skipline`, `parseboundary` (the `str += len` after each successful `strncmp`, both
+scans, `strndup`) on any C string, and `findboundary` with any C-string boundary (its `s += 2`, `s += len`,
+`s += 2` and the final `*s == '\n'` test): no access outside the buffer; the delimiter line reported is inside it. -/
+theorem C07_L0_mime_scanners (b : Buf) (hb : b.bytes.back? = some 0) (i : Nat) (hi : i < b.size) :
+    (∃ j, skipLine b i = .ok j ∧ i ≤ j ∧ j < b.size ∧ b.view j = Model.skipLine (b.view i)) ∧
+    (∃ r, parseBoundary b i = .ok r ∧ ∀ bnd, r = .ok bnd → bnd.bytes.back? = some 0) ∧
+    (∀ bnd : Buf, bnd.bytes.back? = some 0 →
+      ∃ r, findBoundary bnd b i = .ok r ∧ ∀ p t, r = some (p, t) → i ≤ p ∧ p < b.size) :=
+  mime_scanners_ok b hb i hi
+
+open L0 in
+/-- libks vector: `VECTOR_CALLOC` on any vector (any length, capacity, generation) writes its zeroed slot inside
+the capacity `vector_reserve1` left, and the pointer it returns is valid for the vector it returns. -/
+theorem C07_L0_vector_calloc {α : Type} (v : Vec α) (z : α) :
+    ∃ v' p, v.calloc z = .ok (v', p) ∧ v'.items = v.items.push z ∧ p.gen = v'.gen ∧ p.idx = v.items.size :=
+  Vec.calloc_ok v z
+
+open L0 in
+/-- `parseattachments`, index level, at every depth: for every well-formed top-level message, every attachment
+table whose elements are well formed (any length, capacity and generation - in particular tables that are
+reallocated while the loop runs) and every `msg` that is the top-level message or a pointer taken in the table's
+current generation: no access outside a `me_buf`, no write outside the table's capacity, and no use of `msg` or
+`attach` after `VECTOR_CALLOC` moved the table (`Fault.uaf` is not returned). -/
+theorem C07_L0_no_stale_pointer (root : Att) (hr : AttOk root) (fuel : Nat) (v : Vec Att) (msg : MsgRef)
+    (hv : VecOk v) (hm : RefOk v msg) :
+    ∃ v' e, parseAttachments fuel root v msg = .ok (v', e) ∧ VecOk v' :=
+  parseAttachments_ok root hr fuel v msg hv hm
+
+open L0 in
+/-- A whole message: `message_parse_headers` (with `VECTOR_SORT`) followed by `message_get_attachments`
+(`message_get_header1`, `decodeheader`, `parseboundary`, `findboundary`, `strndup`, recursive
+`parseattachments`) returns without a fault for every NUL-terminated buffer - any number of parts, any nesting,
+unterminated or repeated delimiters, NUL bytes anywhere. -/
+theorem C07_L0_message (b : Buf) (hb : b.bytes.back? = some 0) (path : Bytes) :
+    ∃ b' hs body, messageParseHeaders b = .ok (b', hs, body) ∧
+      ∃ r, getAttachments { buf := b', headers := hs, body := body, path := path } = .ok r :=
+  message_attachments_ok b hb path
+
+open L0 in
+/-- util.c `nspaces` and `pathslice` (every write into a destination of at least `bufsiz` bytes, including the
+final `*bp = '\0'`), macro.c `ismacro`, match.c `isbackref` (`s[1]` only after `s[0]`, both `strtoul` calls). -/
+theorem C07_L0_util (b : Buf) (hb : b.bytes.back? = some 0) (i : Nat) (hi : i < b.size) :
+    L0.nspaces b i = .ok (Mdsort.nspaces (b.view i)) ∧
+    (∃ r, L0.isMacro b i = .ok r) ∧
+    (∃ r, L0.isBackref b i = .ok r) ∧
+    (∀ (buf : Buf) (bufsiz : Nat) (beg end_ : Int), bufsiz ≤ buf.size → ∃ r, L0.pathslice b buf bufsiz beg end_ = .ok r) :=
+  util_ok b hb i hi
+
+open L0 in
+/-- `unfoldheader` refines the list model as well: the C string left in the `strlen + 1` bytes of the copy is
+`Model.unfoldHeader` of the view (so C10's statements about unfolding hold of the index-level code). -/
+theorem C07_L0_unfold_refines (b : Buf) (hb : b.bytes.back? = some 0) (i : Nat) (hi : i < b.size) :
+    ∃ d, unfoldHeader b i = .ok d ∧ d.HasNul 0 ∧ d.view 0 = Model.unfoldHeader (b.view i) :=
+  unfoldHeader_refines b (Buf.Terminated.hasNul hb hi)
+
+open L0 in
+/-- The fault that `C07_L0_no_stale_pointer` excludes is expressible: whenever `VECTOR_CALLOC` has to reallocate
+(`vc_len + 1 < vc_siz` fails: lengths 0, 15, 16, 31, 32, ...), dereferencing any pointer taken before it is
+`Fault.uaf` - what `parseattachments` did with `msg` at the pinned commit (finding F7). -/
+theorem C07_L0_stale_pointer_is_a_fault {α : Type} (v : Vec α) (z : α) (p : Ptr) (hp : p.gen = v.gen)
+    (hfull : ¬ v.items.size + 1 < v.siz) :
+    ∃ v' q, v.calloc z = .ok (v', q) ∧ v'.deref p = .error .uaf :=
+  Vec.deref_stale v z p hp hfull
+
+/-! Non-vacuity: concrete inputs satisfying the hypotheses. -/
+
+/-- A full table of 16 elements and a pointer to its first element. -/
+example : ∃ (v : L0.Vec Nat) (p : L0.Ptr), p.gen = v.gen ∧ ¬ v.items.size + 1 < v.siz ∧ p.idx < v.items.size :=
+  ⟨{ items := Array.replicate 16 0, siz := 16, gen := 3 }, { gen := 3, idx := 0 }, rfl, by decide, by decide⟩
+
+/-- A top-level message `"\n"` (no headers), a table holding one such part, and a valid pointer to it. -/
+example : ∃ (root : L0.Att) (v : L0.Vec L0.Att) (msg : L0.MsgRef), L0.AttOk root ∧ L0.VecOk v ∧ L0.RefOk v msg ∧
+    v.items.size = 1 := by
+  have hok : L0.AttOk { buf := ⟨#[10, 0]⟩, headers := #[], body := 0, path := [] } :=
+    ⟨⟨1, by decide, rfl⟩, by intro h hh; simp at hh⟩
+  refine ⟨{ buf := ⟨#[10, 0]⟩, headers := #[], body := 0, path := [] },
+    { items := #[{ buf := ⟨#[10, 0]⟩, headers := #[], body := 0, path := [] }], siz := 16, gen := 1 },
+    .att { gen := 1, idx := 0 }, hok, ?_, ⟨rfl, by decide⟩, rfl⟩
+  intro a ha
+  simp only [Array.mem_def, List.mem_cons, List.not_mem_nil, or_false] at ha
+  subst ha; exact hok
+
+/-- `"=?x?B?Zm9v?= =41"` as `buffer_str` hands it out, and an index inside it. -/
+example : (L0.Buf.ofBytes [61, 63, 120, 63, 66, 63, 90, 109, 57, 118, 63, 61, 32, 61, 52, 49]).bytes.back? = some 0 ∧
+    7 < (L0.Buf.ofBytes [61, 63, 120, 63, 66, 63, 90, 109, 57, 118, 63, 61, 32, 61, 52, 49]).size := by decide
+
+/-- The window `"=4=41"` inside `"ab=4=41"`. -/
+example : (2 : Nat) + 5 ≤ (L0.Buf.ofBytes [97, 98, 61, 52, 61, 52, 49]).size := by decide
+
+/-- A table of two headers inside `"To\0a\0Cc\0b\0"` and the key string `"cc"`. -/
+example : ∃ (kb buf : L0.Buf) (hs : Array L0.Hdr0), kb.HasNul 0 ∧ L0.HdrsIn buf hs ∧ 2 ≤ hs.size := by
+  refine ⟨⟨#[99, 99, 0]⟩, ⟨#[84, 111, 0, 97, 0, 67, 99, 0, 98, 0]⟩,
+    #[{ id := 2, key := 5, val := 8 }, { id := 1, key := 0, val := 3 }], ⟨2, by decide, rfl⟩, ?_, by decide⟩
+  intro h hh
+  simp only [Array.mem_def, List.mem_cons, List.not_mem_nil, or_false] at hh
+  rcases hh with rfl | rfl
+  · exact ⟨⟨7, by decide, rfl⟩, ⟨9, by decide, rfl⟩⟩
+  · exact ⟨⟨2, by decide, rfl⟩, ⟨4, by decide, rfl⟩⟩
 
 end Mdsort.Props
